@@ -11,4 +11,4 @@ s2=eval(sys.argv[2])
 assert s2!=s, "mutation did not apply"
 open(p,'w').write(s2)
 PY
-cd /verif && bin/check --unit "$1" --repo /scratch/mut 2>&1 | cut -c1-260 | grep -v "^  vacuity\|replay=" 
+cd /verif && VX_BUILD_DIR=/scratch/b2 bin/check --unit "$1" --repo /scratch/mut 2>&1 | cut -c1-260 | grep -v "^  vacuity\|replay=" 
